@@ -85,8 +85,15 @@ func (Minter) CurrentPhase(params Params, currentBlock int64) (Phase, int) {
 // NextPhaseProvisions returns the phase provisions based on current total
 // supply and inflation rate.
 func (m Minter) NextPhaseProvisions(totalSupply, excludeAmount sdkmath.Int, phase Phase) sdkmath.LegacyDec {
+	// the excluded amount may exceed the total supply (it is a parameter, the supply changes):
+	// there is nothing to inflate then, instead of a negative provision that panics in the begin blocker
+	inflationBase := totalSupply.Sub(excludeAmount)
+	if inflationBase.IsNegative() {
+		inflationBase = sdkmath.ZeroInt()
+	}
+
 	// calculate annual provisions as normal
-	annualProvisions := m.Inflation.MulInt(totalSupply.Sub(excludeAmount))
+	annualProvisions := m.Inflation.MulInt(inflationBase)
 
 	// return this phase provisions according to the year coefficient
 	// ex.
